@@ -34,6 +34,7 @@ def corr_kang_delay(ctx, n):
         h = ctx.rng.uniform(0, 1, size=S) * (ctx.rng.random(S) < 0.7)
         impl.append(np.asarray(_add_delay(h.copy(), d)))
         lines.append(' '.join(['shift', str(d), str(S), common.fhexs(h)]))
+    kang_delay_oracle(ctx, 10)
     outs = common.run_driver(lines)
     for k, (line, a) in enumerate(zip(outs, impl)):
         st, val = common.parse_ok_floats(line)
@@ -42,6 +43,26 @@ def corr_kang_delay(ctx, n):
             ctx.cmp.exact('corr:kang._add_delay[%d]' % k, a, val)
         ctx.cases += 1
         ctx.count('kang_delay.cases')
+
+
+def kang_delay_oracle(ctx, n):
+    """Kang `_add_delay` on the implementation: the delayed response is the input shifted by the
+    delay with the tail dropped; nothing re-appears in the first `delay` bins."""
+    common.import_repo()
+    from sparrowpy.classes.RadiosityKang import _add_delay
+    for _ in range(n):
+        S = int(ctx.rng.choice([2, 3, 5, 8, 20]))
+        d = int(ctx.rng.integers(0, S + 1))
+        h = ctx.rng.uniform(0.1, 1, size=S)
+        out = np.asarray(_add_delay(h.copy(), d))
+        ctx.oracle_evals += 1
+        ref = np.zeros(S)
+        if d < S:
+            ref[d:] = h[:S - d]
+        if not np.array_equal(out, ref):
+            ctx.violation('kang-delay-wrap', 'Kang _add_delay(%d bins of %d): energy shifted past the end re-appears at the start' % (d, S),
+                          {'kang_delay': True, 'h': h, 'delay': d}, out, ref)
+            return
 
 
 def reach_sets(case):
@@ -74,6 +95,7 @@ def oracle(ctx, budget_s=60, cases=None, ccases=None):
         cases = [kernels.gen_exchange_case(rng) for _ in range(200)]
     if ccases is None:
         ccases = [kernels.gen_collect_case(rng) for _ in range(200)]
+    kang_delay_oracle(ctx, 20)
     for case in cases:
         if t.s() > budget_s:
             break
@@ -142,6 +164,9 @@ def _exc_input(case):
 
 def replay(ctx, rp):
     inp = rp['input']
+    if inp.get('kang_delay'):
+        kang_delay_oracle(ctx, 50)
+        return not ctx.violations
     if 'dij' in inp:
         case = {k: (np.array(v) if isinstance(v, list) and k not in ('pairs',) else v) for k, v in inp.items()}
         case['pairs'] = [tuple(p) for p in inp['pairs']]
